@@ -190,6 +190,7 @@ def exact_cumulants(C):
 def oracle_check(evs, max_order, rel=1e-6, mode="fresh", corr_first=None, do_poison=None, container=None):
     """Returns None or (key, what, detail) when the *real code* disagrees with the definition."""
     import random as _random
+    import sparkx.MultiParticlePtCorrelations  # noqa: F401  (the first import of sparkx itself advances `random`)
     env0 = (_random.getstate(), np.random.get_state()[1].tobytes(), np.geterr(), np.get_printoptions())
     try:
         c, kap = real_all(evs, max_order, mode, corr_first, do_poison, container)
@@ -350,7 +351,9 @@ def homogeneity_check(rng, mo):
     c1, _ = real_all(scaled, mo, "fresh")
     for k in range(mo):
         want = c0[k] * 2.0 ** (b * (k + 1))
-        if not ((want != want and c1[k] != c1[k]) or close(c1[k], want, rel=1e-9)):
+        # tolerance: the oracle's own.  The scaling is exact for +,-,* but libm's pow is only faithfully rounded, and with
+        # M close to the order the power-sum expansion amplifies that last bit by many orders of magnitude.
+        if not ((want != want and c1[k] != c1[k]) or close(c1[k], want, rel=1e-6)):
             r = oracle_check(scaled, mo, mode="fresh")
             key = r[0] if r else f"corr-order-{k+1}"
             return (key + "-scaled", f"weights x 2^{a}, pT x 2^{b}: order {k+1} correlation {c1[k]!r}, "
